@@ -139,4 +139,18 @@ package roman
 //@   loop 0 invariant sameOrFresh(theBuffer(), buf)
 //@   loop 0 invariant heapSameExceptFrom(buf, len(buf))
 
+//@ func formatByVerb
+//@   ensures [C02.verb] result == ite(verb == 'L', FormatLong, ite(verb == 'l', FormatLong|FormatLowerCase, ite(verb == 'R', 0, ite(verb == 'r', FormatLowerCase, DefaultFormat))))
+
+//@ func (Number).format
+//@   ensures [C02.canon] len(result) == numeralLen(n, f) && numeralAt(result, 0, n, f)
+
+//@ func (Number).String
+//@   ensures [C02.canon] len(result) == numeralLen(n, DefaultFormat) && numeralAt(result, 0, n, DefaultFormat)
+
+//@ func (Number).MarshalText
+//@   ensures [C02.canon] err == nil && len(r0) == numeralLen(n, DefaultFormat) && numeralAt(r0, 0, n, DefaultFormat)
+//@   ensures fresh(r0)
+
 var _ = []any{DefaultParser[string], DefaultParser[[]byte], Valid[string], Valid[[]byte], checkInputLength[string], checkInputLength[[]byte]}
+
